@@ -198,7 +198,10 @@ def check(prop, tier):
 
     def report_violation(case, text, extra=None):
         nonlocal exit_code
-        small = shrink(mod, case, lambda c: real_violation(mod, c))
+        pre = mod.violation_class(case, text) if hasattr(mod, 'violation_class') else text[:80]
+        if pre in reported or len([x for x in reported if not x.startswith('K')]) >= 4:
+            return
+        small = shrink(mod, case, lambda c: real_violation(mod, c), budget_s=10)
         text2 = real_violation(mod, small) or text
         kf = known_match(mod, prop, small, text2)
         if kf is not None:
@@ -211,6 +214,7 @@ def check(prop, tier):
         if key in reported:
             return
         reported.add(key)
+        reported.add(pre)
         payload = {'property': prop, 'case': small, 'original_case': case, 'observed': text2,
                    'oracle': mod.ORACLE_DOC, 'seed': seed, 'tier': tier}
         if extra:
